@@ -29,6 +29,10 @@ RULES = {
     "R9": "one coordinate system for the mapped data file: ExternalTensor maps the file from byte 0 and every position "
     "used with the mapping (np.frombuffer offset=, slices of self.raw) is the tensor's absolute file offset - or, if the "
     "mapping starts at a window base, every position in every method is taken relative to that same base",
+    "R11": "byte counts round up exactly: on the tensor byte paths (tensor classes, packing helpers, adapters, tensor "
+    "serialization) a byte or element count is rounded up with math.ceil of the exact product or with the integer idiom "
+    "(n + d - 1) // d - an addend other than the divisor minus one (the 4-bit `+ 1` reused for 4 elements per byte) "
+    "rounds down for some sizes, so nbytes, the packed-buffer check and the external read length lose a byte",
     "R10": "byte access to a framework tensor is view-aware: the adapters take the base address of the bytes from the "
     "tensor itself (tensor.data_ptr()) - a pointer taken from the underlying storage object ignores the view's storage "
     "offset, so a slice / chunk of a larger tensor would emit the first bytes of the storage instead of its own elements",
@@ -38,7 +42,7 @@ RULES = {
     "R6": "packing constants: masks are ((1<<K)-1) shifted by multiples of K, shifts are multiples of K below 8, "
     "strides and padding moduli are 8/K in each helper",
 }
-FLOORS = {"R1": 120, "R2": 4, "R3": 8, "R4": 1, "R5": 6, "R6": 20, "R7": 30, "R8": 4, "R9": 2, "R10": 1}
+FLOORS = {"R1": 120, "R2": 4, "R3": 8, "R4": 1, "R5": 6, "R6": 20, "R7": 30, "R8": 4, "R9": 2, "R10": 1, "R11": 1}
 EXPLANATION = (
     "Evaluates the enum and table literals of _enums/_core/tensor_adapters with ast only and compares them with "
     "each other; derives the sub-byte classes from _BITWIDTH_MAP and checks every storage guard, packing-helper "
@@ -762,7 +766,45 @@ def rule_r10(ctx):
     ctx.require(n >= 1, "no data_ptr() call found in tensor_adapters")
 
 
+def rule_r11(ctx):
+    mods = ["onnx_ir._core", "onnx_ir._type_casting", "onnx_ir.tensor_adapters", "onnx_ir.serde", "onnx_ir._enums"]
+    n = 0
+    for mn in mods:
+        m = ctx.repo.modules.get(mn)
+        if m is None:
+            continue
+        for f in m.all_funcs:
+            if isinstance(f.node, ast.Lambda):
+                continue
+            for x in own_nodes(f.node):
+                if isinstance(x, ast.Call) and norm(x.func) in ("math.ceil", "np.ceil", "numpy.ceil"):
+                    n += 1
+                    ctx.ob("R11", f"{f.local}: {short(norm(x))} rounds up with ceil", True, how="math.ceil of the exact product")
+                    continue
+                if not (isinstance(x, ast.BinOp) and isinstance(x.op, ast.FloorDiv) and isinstance(x.left, ast.BinOp) and isinstance(x.left.op, ast.Add)):
+                    continue
+                add, d = x.left.right, x.right
+                if isinstance(x.left.left, ast.Constant) and not isinstance(add, ast.Constant):
+                    add = x.left.left
+                # (n + c) // d with a positive constant addend, or (n + d - 1) // d spelled out: a round-up
+                spelled = isinstance(x.left.left, ast.BinOp) and isinstance(x.left.left.op, ast.Add)  # (n + d) - 1 parsed as ((n + d) - 1)
+                if not (isinstance(add, ast.Constant) and isinstance(add.value, int) and add.value > 0) and not spelled:
+                    if not (isinstance(add, ast.BinOp) and isinstance(add.op, ast.Sub) and isinstance(add.right, ast.Constant) and add.right.value == 1):
+                        continue
+                n += 1
+                if isinstance(add, ast.Constant):
+                    ok = isinstance(d, ast.Constant) and add.value == d.value - 1
+                else:
+                    ok = isinstance(add, ast.BinOp) and norm(add.left) == norm(d)
+                ctx.check("R11", f"{f.local}: `{norm(x)}` rounds up by the divisor minus one", ok, f, x,
+                          f"`{norm(x)}` adds {norm(add)} before dividing by {norm(d)}: that is a round-up only when the addend is the divisor minus one; "
+                          "for other divisors (4 two-bit elements per byte) sizes with a small remainder are rounded down and the count is one short",
+                          how="shape of every floor division of a sum on the tensor byte paths", construct=f"round-up {norm(x)}")
+    ctx.require(n >= 1, "no byte-count rounding found on the tensor byte paths")
+
+
 def run(ctx):
+    rule_r11(ctx)
     rule_r10(ctx)
     rule_r7(ctx)
     rule_r8(ctx)
